@@ -462,6 +462,11 @@ def explore(ctx):
             work.append(('numeric', (x, d, rng.choice(sigs))))
     work += [('fact', n) for n in list(range(-3, 25)) + [0.5, 3.7, 50, 170]]
     work += [('hex', n) for n in edge[:(len(edge) if big else 1500)]]
+    # every n up to 8192 and a band of 40-bit values: covers the digit strings that read as something else (1E5, 7E0, 0X.., INF)
+    work += [('hex', n) for n in range(0, 8192)] + [('hex', -n) for n in range(1, 4096, 3)] + [('hex', 0x1234567E12), ('hex', -549755813406), ('hex', 0xE5 * 16 ** 7)]
+    for r in (15, 16, 20, 30, 36):
+        for n in range(120, 2600):
+            work.append(('base', (n, r)))
     for r in list(range(-2, 41)):
         for n in list(range(0, 2000 if big else 120)) + [-1, -7]:
             work.append(('base', (n, r)))
